@@ -168,4 +168,12 @@ def setParamStatic (ps : List PInfo) (isC : Bool) (s : Ctx) (k : Nat) (v : Int) 
         if !isC && p.id == idRefMultipleDDicts then .error .unsupported
         else .ok { s with vals := s.vals.set k w }
 
+/-- ZSTD_CCtx_setParametersUsingCCtxParams on a STATIC CCtx: after the stage gate, a parameter object that asks for worker threads is
+refused as a whole with parameter_unsupported (the same rule as the single-parameter setter; nothing is stored) -/
+def applyParamsStatic (ps : List PInfo) (s par : Ctx) : Except Err Ctx :=
+  if s.started then .error .stage
+  else match ps.findIdx? (·.id == idNbWorkers) with
+    | some k => if (par.vals[k]?).getD 0 ≠ 0 then .error .unsupported else .ok { s with vals := par.vals }
+    | none => .ok { s with vals := par.vals }
+
 end ZstdVerif.LevelParams
